@@ -304,11 +304,12 @@ Proof.
   - apply nodup_del_all. apply nodup_parse_headers.
 Qed.
 
-Lemma nodup_forwarded_block hin host peer h : NoDup (keys h) -> NoDup (keys (forwarded_block hin host peer h)).
+Lemma nodup_forwarded_block al tls hin host peer h :
+  NoDup (keys h) -> NoDup (keys (forwarded_block al tls hin host peer h)).
 Proof.
-  intro H. unfold forwarded_block.
-  destruct (negb (is_empty (h_get "X-Forwarded-For" hin)) || negb (is_empty (h_get "X-Forwarded-Proto" hin)) ||
-            negb (is_empty (h_get "X-Forwarded-Host" hin))); repeat apply nodup_set; exact H.
+  intro H. unfold forwarded_block. cbv zeta.
+  match goal with |- context [if ?c then _ else _] =>
+    match c with negb _ || _ || _ => destruct c end end; repeat apply nodup_set; exact H.
 Qed.
 
 Lemma nodup_rewrite_request fx q pl th : NoDup (keys (snd (rewrite_request fx q pl th))).
@@ -319,7 +320,7 @@ Proof.
   assert (H1 : NoDup (keys h1)).
   { unfold h1. apply nodup_del_all. unfold strip_forwarding. apply nodup_del_all.
     apply nodup_remove_hop. apply nodup_in_headers. }
-  set (h1' := if fx_f4 fx then forwarded_block (in_headers q) (q_host q) (q_peer q) h1 else h1).
+  set (h1' := if fx_f4 fx then forwarded_block (fx_f7 fx) (q_tls q) (in_headers q) (q_host q) (q_peer q) h1 else h1).
   assert (H1' : NoDup (keys h1')).
   { unfold h1'. destruct (fx_f4 fx); [apply nodup_forwarded_block|]; exact H1. }
   set (h2 := set_pipeline_headers (fx_c13f3 fx) (upstream_headers pl) h1').
@@ -340,5 +341,5 @@ Proof.
   assert (H2 : NoDup (keys h2)).
   { unfold h2. destruct (is_empty (h_get "User-Agent" h1)); [apply nodup_del | apply nodup_set]; exact H1. }
   destruct (is_empty (h_get "Accept-Encoding" h2) && is_empty (h_get "Range" h2) && negb (String.eqb m "HEAD"));
-    [apply nodup_set|]; exact H2.
+    [apply nodup_add|]; exact H2.
 Qed.
